@@ -62,6 +62,14 @@ func runC07(e *Engine, r *Report, tier string) {
 		"(x/gov/keeper.Keeper).Tally|Quo(alloc:totalVotingPower)":                                                           "veto ratio: reached only after `totalVotingPower.Sub(abstain) != 0` (checked by the next ledger entry's guard); abstain is one of the non-negative summands of totalVotingPower, so the total is non-zero",
 	}
 
+	{
+		// exemptions are about a site, not about what its local variables are called today
+		nd := map[string]string{}
+		for k, v := range d4 {
+			nd[normD4(k)] = v
+		}
+		d4 = nd
+	}
 	nsite := 0
 	for _, fn := range fns {
 		fn := fn
@@ -72,7 +80,7 @@ func runC07(e *Engine, r *Report, tier string) {
 				nsite++
 				ck := key + "|panic " + panicContext(x)
 				// D3: panic inside a branch guarded by err != nil of a codec/validated operation is still a site; look up D4
-				if why, ok := d4[ck]; ok {
+				if why, ok := d4[normD4(ck)]; ok {
 					r.Ok("R1", ck, e.InstrPos(i), "D4 exemption: "+why)
 					return
 				}
@@ -157,7 +165,7 @@ func runC07(e *Engine, r *Report, tier string) {
 							ck += "(" + regNames.ReplaceAllString(vkey(a[1], 0), "") + ")"
 						}
 					}
-					if why, ok := d4[ck]; ok {
+					if why, ok := d4[normD4(ck)]; ok {
 						r.Ok("R1", ck, e.InstrPos(i), "D4 exemption: "+why)
 						return
 					}
@@ -999,3 +1007,8 @@ func dedupStrings(in []string) []string {
 	sort.Strings(out)
 	return out
 }
+
+
+var reLocalNames = regexp.MustCompile(`(alloc|P):[A-Za-z0-9_]+`)
+
+func normD4(k string) string { return reLocalNames.ReplaceAllString(k, "$1:_") }
